@@ -189,6 +189,10 @@ def revolve(
     if transform is not None:
         # apply transform to vertices
         vertices = tf.transform_points(vertices, transform)
+        if np.linalg.det(np.asanyarray(transform, dtype=np.float64)[:3, :3]) < 0.0:
+            # a mirroring transform turns the surface inside-out
+            # so reverse the winding to keep normals pointing out
+            faces = np.ascontiguousarray(np.fliplr(faces))
 
     # create the mesh from our vertices and faces
     mesh = Trimesh(vertices=vertices, faces=faces, **kwargs)
